@@ -2,14 +2,15 @@
 # usage: try_seed.sh <patch> <prop> [<prop>...]   — applies a seeded change to /repo, runs quick checks, reverts
 set -u
 PATCH="$1"; shift
-cd /repo && git apply "$PATCH" || { echo "patch does not apply"; exit 2; }
+# stored changes of rounds 1-11 were written against 70d7802 (before the C06 repair): fall back to a 3-way merge
+cd /repo && { git apply "$PATCH" 2>/dev/null || { git apply --3way "$PATCH" >/dev/null 2>&1 && git reset -q; }; } || { git reset -q; git checkout -q -- .; echo "patch does not apply"; exit 2; }
 cd /verif
 mkdir -p build/evidence_keep; for p in "$@"; do cp -f evidence/$p.json build/evidence_keep/ 2>/dev/null; done
 for p in "$@"; do
   out=$(./run.sh quick "$p" 2>&1); rc=$?
   echo "$p rc=$rc :: $(echo "$out" | grep -E "VIOLATION|KNOWN|INFRA" | head -2 | tr '\n' ' ') | $(echo "$out" | tail -1)"
 done
-cd /repo && git checkout -- . && git clean -fdq -- src rsactor-derive tests examples && git status --short | head -3
+cd /repo && git reset -q && git checkout -- . && git clean -fdq -- src rsactor-derive tests examples && git status --short | head -3
 # the evidence files written during a seeded run describe the seeded tree: put the clean ones back
 cd /verif && for p in "$@"; do cp -f build/evidence_keep/$p.json evidence/ 2>/dev/null; done
 cd /verif/lean && ../tools/extract/target/release/extract /repo Rsactor/Extracted.lean /verif/build/extract.json >/dev/null 2>&1
